@@ -224,6 +224,49 @@ func (p c15) Run(w *mon.Worker, idx int) mon.Result {
 				}
 			}
 		}
+		if r.IntN(3) == 0 {
+			// several sequences through ONE sort invocation: each result is the sort of its own input
+			n := 2 + r.IntN(2)
+			pools := [][]c15El{els}
+			for i := 1; i < n; i++ {
+				pools = append(pools, c15Pool(r, 8))
+			}
+			r.Shuffle(len(pools), func(i, j int) { pools[i], pools[j] = pools[j], pools[i] })
+			var parts []string
+			var want []*ref.V
+			for _, pl := range pools {
+				parts = append(parts, strings.TrimSpace(c15Doc(pl)))
+				one, e1 := c15Eval("sort", c15Doc(pl))
+				res.Evals++
+				if e1 != nil || len(one) != 1 {
+					return fail("`sort` failed on %s: %v", c15Doc(pl), e1)
+				}
+				want = append(want, one[0])
+			}
+			multi := "[" + strings.Join(parts, ", ") + "]\n"
+			res.Tags = append(res.Tags, "sort:several_sequences")
+			for _, ex := range []string{".[] | sort", "map(sort)", "[.[] | sort_by(.)]"} {
+				gs, e2 := c15Eval(ex, multi)
+				res.Evals++
+				if e2 != nil {
+					return fail("`%s` failed on %s: %v", ex, multi, e2)
+				}
+				if ex != ".[] | sort" {
+					if len(gs) != 1 || gs[0].K != ref.Seq {
+						return fail("`%s` on %s: expected one sequence, got %v", ex, multi, gs)
+					}
+					gs = gs[0].A
+				}
+				if len(gs) != len(want) {
+					return fail("`%s` on %s: %d results for %d sequences", ex, strings.TrimSpace(multi), len(gs), len(want))
+				}
+				for i := range gs {
+					if !ref.EqualNum(gs[i], want[i]) {
+						return fail("`%s` on %s: result %d is %s, but `sort` of that sequence alone gives %s", ex, strings.TrimSpace(multi), i, gs[i], want[i])
+					}
+				}
+			}
+		}
 		res.Verdict = mon.Held
 		res.Detail = fmt.Sprintf("%s -> %s", strings.TrimSpace(doc), got[0])
 		return res
